@@ -450,3 +450,35 @@ func countHook() func() int64 {
 		return n
 	}
 }
+
+// withStepCap runs f with a hook that counts yields (chaining to the hook that
+// was installed before) and unwinds f with abortUnit{"stepcap"} once more than
+// cap yields were executed. f must recover the abortUnit itself (loadVia and
+// Unit.run do). Used for calls that must terminate because the same call
+// terminates in a known number of steps on a reference instance.
+func withStepCap(cap int64, f func()) (n int64, capped bool) {
+	prev := xsimrt.Hook
+	xsimrt.Hook = func(site int) {
+		n++
+		if prev != nil {
+			prev(site)
+		}
+		if n > cap {
+			// sticky: once the budget is gone every further yield unwinds its
+			// caller, so a sequence of calls ends quickly
+			capped = true
+			panic(abortUnit{"stepcap"})
+		}
+	}
+	defer func() { xsimrt.Hook = prev }()
+	f()
+	return
+}
+
+func loadCap(ref int64) int64 {
+	c := ref * 50
+	if c < 200000 {
+		c = 200000
+	}
+	return c
+}
